@@ -12,6 +12,7 @@ from _pytask.dag import create_dag_from_session
 from _pytask.dag_utils import TopologicalSorter
 from _pytask.dag_utils import descending_tasks
 from _pytask.mark import Mark
+from _pytask.mark_utils import get_marks
 from _pytask.mark_utils import has_mark
 from _pytask.models import NodeInfo
 from _pytask.node_protocols import PNode
@@ -26,6 +27,8 @@ from _pytask.tree_util import tree_map_with_path
 from _pytask.typing import is_task_generator
 
 if TYPE_CHECKING:
+    from collections.abc import Generator
+
     from _pytask.session import Session
 
 
@@ -95,25 +98,48 @@ def recreate_dag(session: Session, task: PTask) -> None:
 
 
 def _skip_descendants_of_skipped_tasks(session: Session) -> None:
-    """Skip tasks which were added to the DAG below an already skipped task.
+    """Skip tasks which were added to the DAG below a skipped task.
 
     When a task is skipped, all its descending tasks are marked to be skipped, too. Tasks
-    which are created later by a task generator are not among them.
+    which are created later by a task generator, or which are linked to the skipped task
+    only when a provisional node is resolved, are not among them.
 
     """
-    for report in session.execution_reports:
-        if report.outcome != TaskOutcome.SKIP:
-            continue
-        for name in descending_tasks(report.task.signature, session.dag):
+    for task in _skipped_tasks(session):
+        for name in descending_tasks(task.signature, session.dag):
             descending_task = session.dag.nodes[name]["task"]
             if not has_mark(descending_task, "skip"):
                 descending_task.markers.append(
                     Mark(
                         "skip",
                         (),
-                        {"reason": f"Previous task {report.task.name!r} was skipped."},
+                        {"reason": f"Previous task {task.name!r} was skipped."},
                     )
                 )
+
+
+def _skipped_tasks(session: Session) -> Generator[PTask, None, None]:
+    """Yield the tasks which were skipped and the tasks which are going to be skipped.
+
+    The outcome of a task with a ``skip`` marker or a ``skipif`` marker whose condition
+    is true is decided before it is processed. Waiting for its report would make the
+    outcome of a task which is linked to it later depend on the order of execution.
+
+    """
+    for report in session.execution_reports:
+        if report.outcome == TaskOutcome.SKIP:
+            yield report.task
+    for task in session.tasks:
+        if has_mark(task, "skip") or any(
+            _is_condition_true(mark) for mark in get_marks(task, "skipif")
+        ):
+            yield task
+
+
+def _is_condition_true(mark: Mark) -> bool:
+    """Evaluate the condition of a ``skipif`` marker."""
+    condition = mark.args[0] if mark.args else mark.kwargs.get("condition", False)
+    return bool(condition)
 
 
 def _skip_descendants_of_failed_tasks(session: Session) -> None:
